@@ -14,7 +14,29 @@ import (
 
 const sec = int64(time.Second)
 
-var apps = []string{"test1/app1", "test1/app2", "sys/registry"}
+// applications: three that istructs.ClusterApps lists, and ones it does not list (several owners and
+// names, names one character apart, the null application "/")
+var listedApps = []string{"test1/app1", "test1/app2", "sys/registry"}
+var unlistedApps = []string{"acme/shop", "acme/billing", "acme/shop2", "acmf/shop", "sys/vvm", "/"}
+var apps = append(append([]string{}, listedApps...), unlistedApps...)
+
+// another application than a, mostly of the same kind (listed / not listed)
+func otherApp(r *kit.Rng, a string) string {
+	pool := listedApps
+	for _, u := range unlistedApps {
+		if u == a {
+			pool = unlistedApps
+		}
+	}
+	if r.Chance(1, 4) {
+		pool = apps
+	}
+	for {
+		if o := kit.Pick(r, pool); o != a {
+			return o
+		}
+	}
+}
 
 func floorSec(ns int64) int64 {
 	q := ns / sec
@@ -86,8 +108,8 @@ func genVal(r *kit.Rng, is *issueSpec, clockBoundary bool) valSpec {
 	switch r.Intn(10) {
 	case 0, 3:
 		v.Key = otherSecret(r, is.Key)
-	case 1:
-		v.App = kit.Pick(r, apps)
+	case 1, 4:
+		v.App = otherApp(r, is.App)
 	case 2:
 		v.PType = kit.Pick(r, payloadTypes)
 	}
